@@ -101,6 +101,12 @@ def judge (m : MonState) (now : Int) (p : Presented) (obs : Option Tokens) : Opt
           else if tk.nonce != i.req.nonce then some "tokens:nonce"
           else tk.carried.findSome? (carriedBad i.req)   -- deep3-C04: each token of the response carries the request's values
 
+/-- deep4-C04: a second answer with tokens for a spent code breaks "once" (`code-replayed`).  Whether that answer ALSO breaks
+    "only to its client, redirect URI and PKCE proof" is judged here: the same judgement with the code taken as unspent.  Only
+    used to NAME the further clause in a verdict that is a violation already (Driver/FlowMon.lean); `judge` is the monitor. -/
+def judgeBinding (m : MonState) (now : Int) (p : Presented) (obs : Option Tokens) : Option String :=
+  judge { m with issued := m.issued.map fun i => if i.code == p.code then { i with used := false } else i } now p obs
+
 /-- state update: a callback that handed out `code` for request `req` -/
 def onCallback (m : MonState) (code : String) (req : AuthReq) : MonState :=
   { m with issued := m.issued.filter (·.code != code) ++ [{ code := code, req := req }] }
